@@ -1235,6 +1235,8 @@ pub fn run_binder(case: &BCase, ctx: &mut Ctx) -> R {
     // (12 GB for 10 000 tokens through the API).  Everything at and around the limit then goes through the library.
     let mut left = case.base as usize;
     if left > 1000 {
+        // bind_tokens at ~10 000 tokens costs ~1.5e10 instructions / 1.2 GB of modelled memory per call
+        envx::raise_budget(&e, 200_000_000_000, 6_000_000_000);
         use BinderLayoutKey as K;
         let direct_buckets = (left - 2 * MAX_BATCH) / TOKEN_BUCKET;
         let mut all: Vec<usize> = vec![];
@@ -1644,6 +1646,10 @@ pub fn run_docs(case: &DCase, ctx: &mut Ctx) -> R {
     let mut h = DocsH { e: e.clone(), c: c.clone(), next_name: D_UNI, map: BTreeMap::new(), removed: vec![], obs: vec![], track: SwapTrack::default(), tick: 0 };
     // set-up: fillers attached with the library function inside one contract frame
     let base = case.base as usize;
+    if base > 500 {
+        // thousands of documents attached inside ONE contract frame during set-up
+        envx::raise_budget(&e, 200_000_000_000, 6_000_000_000);
+    }
     if base > 0 {
         let ts = e.ledger().timestamp();
         let uri = "https://docs.example/filler".to_string();
